@@ -11,6 +11,8 @@ C07-c  {c : hex_to_int(c) >= 0} = [0-9A-Fa-f] with values 0..15 (piecewise-affin
        interpretation over the whole char range).
 C07-d  zck_validate_lead returns read_lead's verdict and restores offset 0 on every
        non-failure exit.
+C07-h  a pin stored through a narrowing conversion (ssize_t option value -> int) is range-tested first; the pinned
+       total length is compared with header_length + lead length only where an edge proves the sum representable.
 C07-g  no success exit of an option setter leaves a pin field freed or reset to its unset value: a pin in
        force stays in force (setting another pin must not silently drop the digest pin).
 """
@@ -51,6 +53,7 @@ class PinRule(SymRule):
         if ctx.fn is not self.fn:
             return ts
         op, l, r = atom_cmp(node.e, label)
+        ts = self.nowrap_fact(op, l, r, ts)
         for side, other in ((l, r), (r, l)):
             f = last_field(side)
             if f in PINS and strip(side).k == 'mem':
@@ -89,6 +92,25 @@ class PinRule(SymRule):
                         ts = ts | frozenset(['bad:prep_digest'])
         return ts
 
+    BIG = 2 ** 63
+
+    def nowrap_fact(self, op, l, r, ts):
+        """An edge that proves a sum of unsigned quantities representable: X <= MAX - Y (MAX a constant of at least
+        2^63), or the wrap idiom A <= A + B.  Recorded as ('nowrap', X + Y)."""
+        lv, rv = self.value(l, ts), self.value(r, ts)
+        if lv is None or rv is None:
+            return ts
+        if op in ('>', '>='):
+            lv, rv, op = rv, lv, {'>': '<', '>=': '<='}[op]
+        if op in ('<', '<='):
+            if rv.c >= self.BIG and all(c < 0 for c in rv.t.values()) and all(c > 0 for c in lv.t.values()) and lv.c >= 0:
+                total = lv - Lin(rv.t, 0)       # X + Y
+                ts = ts | frozenset([('nowrap', Lin(total.t, 0))])
+            d = rv - lv
+            if lv.t and d.c == 0 and d.t and all(c > 0 for c in d.t.values()) and all(c > 0 for c in lv.t.values()):
+                ts = ts | frozenset([('nowrap', Lin(rv.t, 0))])     # A <= A + B
+        return ts
+
     def check_equal(self, ctx, f, other, ts):
         if f == 'prep_hash_type':
             # the stored value: a local decoded from the lead by compint_to_int
@@ -103,7 +125,17 @@ class PinRule(SymRule):
             if v is None or d is None:
                 return False
             want = Lin({'zck->header_length': 1}) + d + Lin({DS: 1})
-            return v == want
+            if v != want:
+                return False
+            # the sum must be representable: header_length comes from the file as a full 64-bit value, and a sum
+            # that wraps compares equal to a small pinned length
+            vv = v.subst('zck->header_length', n) if n is not None else v
+            facts = [x[1] for x in ts if isinstance(x, tuple) and len(x) == 2 and x[0] == 'nowrap']
+            ok = any(all(fk.t.get(k, 0) >= c for k, c in vv.t.items()) for fk in facts)
+            self.details.setdefault(f, set()).add('sum proven representable' if ok else 'sum may wrap')
+            if not ok:
+                self.wrap = getattr(self, 'wrap', []) + [ctx.node]
+            return ok
         return False
 
     def on_return(self, ctx, node, mask, ts):
@@ -112,9 +144,13 @@ class PinRule(SymRule):
             for p in PINS:
                 if 'pin:' + p not in ts:
                     self.violate(ctx, 'pin', 'success exit of read_lead without %s: neither the pin-unset edge nor an '
-                                 'equality edge against the stored value was passed%s' % (
+                                 'equality edge against the stored value was passed%s%s' % (
                                      p, ' (comparison present but not memcmp over digest_size at the digest location)'
-                                     if 'bad:' + p in ts else ''), inst=p, node=node)
+                                     if 'bad:' + p in ts else '',
+                                     ' (the compared sum header_length + lead length can wrap: no edge on the path bounds '
+                                     'the 64-bit header length read from the file, so a stored length of 2^64 - k is '
+                                     'accepted for a small pinned length)' if p == 'prep_hdr_size' and getattr(self, 'wrap', None)
+                                     else ''), inst=p, node=node)
         return ts
 
 
@@ -136,12 +172,42 @@ class PinKeep(FactRule):
                 ts = ts | frozenset(['dropped:' + a.op])
         return ts
 
+    def on_edge(self, ctx, node, label, refined, ts):
+        # upper bounds of locals/parameters established by comparisons with constants
+        if ctx.fn is not self.fn:
+            return ts
+        op, l, r = atom_cmp(node.e, label)
+        sl = strip(l)
+        cv = const_value(r)
+        if sl is not None and sl.k == 'var' and cv is not None:
+            if op == '<=':
+                ts = ts | frozenset([('ub', sl.decl, cv)])
+            elif op == '<':
+                ts = ts | frozenset([('ub', sl.decl, cv - 1)])
+        return ts
+
     def on_assign(self, ctx, lhs, rhs, op, value, ts):
         if ctx.fn is not self.fn:
             return ts
         l = strip(lhs)
+        if l is not None and l.k == 'var' and op.endswith('='):
+            ts = frozenset(x for x in ts if not (isinstance(x, tuple) and x[0] == 'ub' and x[1] == l.decl))
         if l is None or l.k != 'mem' or l.op not in PINS or op != '=':
             return ts
+        # a pin stored through a narrowing conversion needs a range test on the wide value first
+        from ..ir import type_width
+        src = rhs
+        while src is not None and src.k == 'cast' and src.a:
+            src = src.a[0]
+        wl, ws = type_width(l.t, l.dt), (type_width(src.t, src.dt) if src is not None else None)
+        if src is not None and src.k == 'var' and wl and ws and ws > wl:
+            self.narrow_sites = getattr(self, 'narrow_sites', 0) + 1
+            lim = (1 << (wl - 1)) - 1
+            ubs = [x[2] for x in ts if isinstance(x, tuple) and x[0] == 'ub' and x[1] == src.decl]
+            if not any(u <= lim for u in ubs):
+                self.violate(ctx, 'pin-narrowed', '%s = %s: the %d-bit option value is stored into a %d-bit pin without a '
+                             'range test; a pin of k + 2^%d is accepted and then matches a file whose stored value is k' % (
+                                 show(lhs), show(rhs), ws, wl, wl), inst='narrow:' + l.op)
         self.events += 1
         cv = const_value(rhs) if rhs is not None else None
         unset = cv is not None and ((l.op == 'prep_digest' and cv == 0) or (l.op != 'prep_digest' and cv < 0))
@@ -168,6 +234,13 @@ def pin_persistence(ck, prog, config):
         run_rule(prog, fn, r)
         ck.require(r.success_exits >= 1, '%s has no success exit' % name)
         n += r.events
+        nar = [v for v in r.violations if v.kind == 'pin-narrowed']
+        r.violations = [v for v in r.violations if v.kind != 'pin-narrowed']
+        if getattr(r, 'narrow_sites', 0) or nar:
+            ck.ob('C07-h', 'R9.narrow-store', name, 'pin-width', not nar,
+                  'a pin stored through a narrowing conversion is range-tested on the wide value first (%d site(s))'
+                  % getattr(r, 'narrow_sites', 0) if not nar else nar[0].msg, fn.file,
+                  nar[0].node.line if nar else fn.line, path=nar[0].path if nar else None, config=config)
         ck.ob('C07-g', 'R6.pin-keep', name, 'pins', not r.violations,
               'no success exit of %s leaves a pin field freed or reset to its unset value (%d pin writes followed '
               'over %d success exits)' % (name, r.events, r.success_exits) if not r.violations else r.violations[0].msg,
